@@ -318,6 +318,15 @@ def r3_one_template(R) -> None:
         a = n.ast
         if n.kind == 'stmt' and isinstance(a, ast.Assign) and method_call(a.value, 'format') and len(a.targets) == 1:
             fmts.append((n, a))
+        elif n.kind == 'stmt' and isinstance(a, ast.Assign) and len(a.targets) == 1 and isinstance(a.targets[0], ast.Name):
+            # the formatted text passed through something else on its way into the local (helpers read through)
+            v_ = f.expand(n.id, a.value)
+            inner = [x for x in ast.walk(v_) if method_call(x, 'format') and not isinstance(x.func.value, ast.Constant) and any(isinstance(y, ast.Starred) for y in x.args)]
+            if inner and inner[0] is not v_:
+                R.violation(f.q, f'rewritten-after-format:{text(a.targets[0])}', f'`{text(a)[:70]}`: the text is rewritten after the terms have been rendered into it '
+                            f'(`{text(v_)[:60]}...`), so the rewriting also reaches inside the terms - a verbatim fragment or a string index (`X[\'a  b\']`) no longer '
+                            f'means what was written, and equation and code can differ', where=f.where(n))
+                return
     by_target = {text(a.targets[0]): (n, a) for (n, a) in fmts}
     if not R.require(f.q, len(fmts), 'template.format(...) for equation and code', fi=f.fi, minimum=2,
                      pred=lambda x: isinstance(x, ast.Call) and isinstance(x.func, ast.Attribute) and x.func.attr == 'format'):
